@@ -313,6 +313,7 @@ package cache
 //@   ensures [slru-access-reorders-only-its-own-elements] forall e ref :: erank(e) != old(erank(e)) ==> fresh(e) || elist(e) == c.probationList || elist(e) == c.protectedList
 //@   ensures [slru-access-moves-only-its-own-items] forall it *cacheItem :: !old(it in pset(c)) ==> it.parent == old(it.parent)
 //@   ensures [C15:slru-access-promotes-to-protected-front] c.protectedCapacity >= 1 ==> inseg(item, c.protectedList) && (forall it *cacheItem :: inseg(it, c.protectedList) && it != item ==> erank(item.parent) < erank(it.parent))
+//@   ensures [C15:slru-demoted-entry-becomes-the-most-recent-probation-entry] forall it *cacheItem :: inseg(it, c.probationList) && it != dyn(ret(Back, 1, 0).Value, *slruItem).cacheItem ==> erank(dyn(ret(Back, 1, 0).Value, *slruItem).cacheItem.parent) < erank(it.parent)
 //@   ensures [C15:slru-protected-segment-stays-bounded] old(llen(c.protectedList)) <= c.protectedCapacity ==> llen(c.protectedList) <= c.protectedCapacity
 
 //@ func (*slru).Remove
